@@ -11,7 +11,8 @@
                 on leaving DProc
      [Step s s' = Inv s' /\ E s s'] is proved for every function of the model up to [run_all] and
      [step_op]; [run_props] / [reach_props] state the consequences for the traces the engines print. *)
-From Coq Require Import ZArith ZifyN ZifyBool Lia List NArith Bool.
+From Coq Require Import ZArith ZifyN ZifyBool Lia List NArith Bool String.
+From MV Require Import Gen.Consts Proofs.ConstsProofs.
 From MV Require Import Base.Prelude Model.RespQueue Model.Inbound Proofs.InboundLogic.
 Import ListNotations.
 Open Scope N_scope.
@@ -1847,3 +1848,98 @@ Proof.
   induction l as [|[b f] l IH]; intros s1 s2; [reflexivity|].
   cbn [fold_left]. unfold step2 at 2. cbn [fst snd]. destruct b; rewrite IH; reflexivity.
 Qed.
+(* ---- corollaries for the engines: inb3/inb5 (server) and cli3/cli5 (client) *)
+Definition total_disconnects (tr : list st) (n : nat) : Prop :=
+  exists ws, cumwire tr = flat3 ws /\ ndisc ws = n.
+
+Lemma props_init s ops :
+  Inv s -> wire (i_ s) = [] -> dsent (p_ s) = false -> dst (s_ s) = DProc -> stops (l_ s) = 0 ->
+  Forall field_ok ops ->
+  (exists ws, cumwire (trace ops s) = flat3 ws /\ (ndisc ws <= 1)%nat /\
+     (forall x, In x ws -> is_disc x = true ->
+        snd (fst x) = 0 /\ if v5 (c_ s) then 128 <= snd x else snd x = 0)) /\
+  (forall s', In s' (trace ops s) -> stops (l_ s') <= 1) /\
+  run_ops ops s = map observe (trace ops s).
+Proof.
+  intros I Hw Hd Hp Hs Ho. destruct (run_props ops s I Hw Ho) as [(ws & A & B & _ & D) ST].
+  rewrite Hd in B. split; [|split].
+  - exists ws. repeat split; auto; try apply D; auto. lia.
+  - intros s' Hin. specialize (ST s' Hin). rewrite Hs in ST. destruct (dstate_eq_dec_proc (dst (s_ s))); lia.
+  - apply run_ops_trace.
+Qed.
+
+Theorem server_run is5 cf ops :
+  Forall field_ok ops ->
+  let s := init_st is5 cf in
+  (exists ws, cumwire (trace ops s) = flat3 ws /\ (ndisc ws <= 1)%nat /\
+     (forall x, In x ws -> is_disc x = true -> snd (fst x) = 0 /\ if is5 then 128 <= snd x else snd x = 0)) /\
+  (forall s', In s' (trace ops s) -> stops (l_ s') <= 1) /\
+  run_ops ops s = map observe (trace ops s).
+Proof. intros H. apply props_init; auto using init_st_Inv. Qed.
+
+Theorem client_run is5 cf ops :
+  Forall field_ok ops ->
+  let s := init_st_cli is5 cf in
+  (exists ws, cumwire (trace ops s) = flat3 ws /\ (ndisc ws <= 1)%nat /\
+     (forall x, In x ws -> is_disc x = true -> snd (fst x) = 0 /\ if is5 then 128 <= snd x else snd x = 0)) /\
+  (forall s', In s' (trace ops s) -> stops (l_ s') <= 1) /\
+  run_ops ops s = map observe (trace ops s).
+Proof. intros H. apply props_init; auto using init_st_cli_Inv. Qed.
+
+(* from any reachable point: no DISCONNECT once the flag is set (own DISCONNECT written, or the
+   peer's received), nothing at all once the io is closed *)
+Theorem after_flag s a b :
+  Inv s -> wire (i_ s) = [] -> Forall field_ok (a ++ b) -> dsent (p_ (after a s)) = true ->
+  trace (a ++ b) s = trace a s ++ trace b (after a s) /\
+  exists ws, cumwire (trace b (after a s)) = flat3 ws /\ ndisc ws = 0%nat.
+Proof.
+  intros I Hw Ho Hd. destruct (reach_props a b s I Hw Ho) as [T [(ws & A & B & _) _]]. split; auto.
+  exists ws. split; auto. rewrite Hd in B. lia.
+Qed.
+
+Theorem after_close s a b :
+  Inv s -> wire (i_ s) = [] -> Forall field_ok (a ++ b) -> closedio (after a s) = true ->
+  cumwire (trace b (after a s)) = [].
+Proof.
+  intros I Hw Ho Hc. destruct (reach_props a b s I Hw Ho) as [T [(ws & A & _ & C & _) _]].
+  rewrite A, (C Hc). reflexivity.
+Qed.
+
+(* ---- the numbers the model uses are the numbers of the Rust tables (Gen/Consts.v) *)
+Lemma model_codes :
+  reason_code_of "Pub_3_3_4_7" = Some 147 /\ reason_code_of "Pub_3_3_4_9" = Some 147 /\
+  reason_code_of "Connack_3_2_2_11" = Some 155 /\
+  lookup "TopicAliasInvalid" gen_enum_v5_DisconnectReasonCode = Some 148 /\
+  reason_code_of "Connack_3_2_2_17" = Some 130 /\ reason_code_of "Pub_3_3_2_2" = Some 130 /\
+  reason_code_of "PacketId_2_2_1_3_Pub" = Some 130 /\ reason_code_of "PacketId_2_2_1_3_Sub" = Some 130 /\
+  reason_code_of "PacketId_2_2_1_3_Unsub" = Some 130 /\ reason_code_of "Subs_4_7_1" = Some 130 /\
+  reason_code_of "Disconnect_3_14_2_22" = Some 130 /\
+  proto_reason_code_of "_" = Some 131 /\ stop_reason EServ = 131 /\
+  lookup "PacketIdentifierInUse" gen_enum_v5_PublishAckReason = Some 145 /\
+  lookup "PacketIdentifierInUse" gen_enum_v5_SubscribeAckReason = Some 145 /\
+  lookup "PacketIdentifierInUse" gen_enum_v5_UnsubscribeAckReason = Some 145 /\
+  lookup "PacketIdNotFound" gen_enum_v5_PublishAck2Reason = Some 146 /\
+  lookup "UnspecifiedError" gen_enum_v5_DisconnectReasonCode = Some 128 /\
+  lookup "DISCONNECT" gen_packet_types = Some 224 /\ lookup "PUBACK" gen_packet_types = Some 64 /\
+  lookup "PUBREC" gen_packet_types = Some 80 /\ lookup "PUBCOMP" gen_packet_types = Some 112 /\
+  lookup "SUBACK" gen_packet_types = Some 144 /\ lookup "UNSUBACK" gen_packet_types = Some 176 /\
+  lookup "PINGRESP" gen_packet_types = Some 208.
+Proof. repeat split; reflexivity. Qed.
+
+Lemma init_states is5 cf :
+  Inv (init_st is5 cf) /\ wire (i_ (init_st is5 cf)) = [] /\
+  Inv (init_st_cli is5 cf) /\ wire (i_ (init_st_cli is5 cf)) = [].
+Proof. repeat split; auto using init_st_Inv, init_st_cli_Inv. Qed.
+
+(* deviation witnesses (the model reproduces the real crate on them) *)
+Lemma a2_witness :
+  ack5 2 9 = A5Disc 128 /\
+  run_inb5 [[2; 0; 3; 0; 0]; [1; 6; 1; 1]] = [[254; 253; 252; 3; 1; 0]].
+Proof. split; vm_compute; reflexivity. Qed.
+
+Lemma c1_witness :
+  run_cli3 [[0; 0]; [1; 1; 2; 1; 1; 0; 0; 0]; [3; 1; 0]; [1; 4; 1]] =
+    [[254; 1001; 2; 1; 1; 0; 0; 253; 1; 7; 252; 0; 0; 1];
+     [64; 1; 0; 254; 253; 252; 0; 0; 1];
+     [224; 0; 0; 254; 253; 252; 3; 1; 0]].
+Proof. vm_compute. reflexivity. Qed.
